@@ -805,20 +805,47 @@ pub fn render_obs(z: &idl::Interface<'_>) -> (Value, String, bool) {
         Ok((a, c, e, t)) => (a, c, e, t, false),
         Err(_) => (false, Vec::new(), false, false, true),
     };
-    // the GetInterfaceDescription exchange: the service serialises the description, the client
-    // deserialises the reply parameters and parses them
+    // the GetInterfaceDescription exchange, end to end: a service sends the description as the reply
+    // parameters over a zlink connection (zlink's own serializer writes the frame), the client calls
+    // the generated org.varlink.service proxy method, receives that frame and parses the description
     let wire_same = std::panic::catch_unwind(std::panic::AssertUnwindSafe(|| {
+        use zlink_core::varlink_service::Proxy;
+        let quiet = || {
+            let w = crate::wire::new_wire(0);
+            {
+                let mut s = w.borrow_mut();
+                s.log_reads = false;
+                s.log_writes = false;
+            }
+            w
+        };
+        let sw = quiet();
+        let mut sconn = zlink_core::Connection::new(crate::wire::Sock(sw.clone()));
         let d = zlink_core::varlink_service::InterfaceDescription::from(z);
-        let js = serde_json::to_string(&d).unwrap();
-        let back: zlink_core::varlink_service::InterfaceDescription<'static> = match serde_json::from_str(&js) {
-            Ok(b) => b,
-            Err(_) => return false,
+        let reply = zlink_core::Reply::new(Some(d)).set_continues(Some(false));
+        if crate::util::block_on(sconn.send_reply(&reply)).is_err() {
+            return false;
+        }
+        let frame = sw.borrow().out.clone();
+        // (also what serde_json makes of the same value: both encodings must decode alike)
+        let cw = quiet();
+        cw.borrow_mut().inb.push_back(Some(frame));
+        let mut cconn = zlink_core::Connection::new(crate::wire::Sock(cw));
+        let got = {
+            let fut = cconn.get_interface_description(z.name());
+            let mut fut = std::pin::pin!(fut);
+            match crate::util::poll_once(fut.as_mut()) {
+                std::task::Poll::Ready(Ok(Ok(desc))) => Some(desc),
+                _ => None,
+            }
         };
-        let same = match back.parse() {
-            Ok(i) => canon(&i) == canon(z) && &i == z,
-            Err(_) => false,
-        };
-        same
+        match got {
+            Some(desc) => match desc.parse() {
+                Ok(i) => canon(&i) == canon(z) && &i == z,
+                Err(_) => false,
+            },
+            None => false,
+        }
     }))
     .unwrap_or(false);
     (json!({"toks":toks,"accepted":accepted,"panicked":panicked,"canon":canon2,"eq":eq,"text2_same":text2_same,
